@@ -560,7 +560,12 @@ fn gen_c06_early_reuse(r: &mut Prng, _i: u64, _t: Tier) -> Plan {
     let first = SidePlan { w, r: vec![], hold: false };
     let linger = 1 + r.below(120);
     let rd = if k > 0 { vec![ROp::AwaitOpened(1), ROp::Yield(r.below(20)), ROp::ReadEof { buf: 1 + r.below(8) }] } else { vec![ROp::ReadEof { buf: 8 }] };
-    let last = SidePlan { w: vec![WOp::AwaitEof, WOp::Yield(linger), WOp::Drop], r: rd, hold: false };
+    // or it never reads them: the old object is dropped with unread data after the id was re-used
+    let last = if k > 0 && r.chance(1, 3) {
+        SidePlan { w: vec![WOp::AwaitOpened(1), WOp::Yield(linger), WOp::Drop], r: vec![], hold: false }
+    } else {
+        SidePlan { w: vec![WOp::AwaitEof, WOp::Yield(linger), WOp::Drop], r: rd, hold: false }
+    };
     let sides = if x == 0 { [first, last] } else { [last, first] };
     p.streams.push(StreamPlan { opener: 0, port: 1, pad: 0, delay: 0, after: None, after_abort: None, raw_host: None, sides });
     // the new stream under the same id, opened while the old object still exists somewhere
@@ -588,6 +593,9 @@ fn c06_early_in_space(p: &Plan) -> bool {
     let s0 = &p.streams[0];
     let is_first = |sd: &SidePlan| sd.r.is_empty() && !sd.hold && sd.w.last() == Some(&WOp::Drop) && sd.w[..sd.w.len() - 1].iter().all(|o| matches!(o, WOp::Write(n) if *n > 0));
     let is_last = |sd: &SidePlan, data: bool| {
+        if data && !sd.hold && sd.r.is_empty() && matches!(sd.w.as_slice(), [WOp::AwaitOpened(1), WOp::Yield(_), WOp::Drop]) {
+            return true;
+        }
         !sd.hold
             && matches!(sd.w.as_slice(), [WOp::AwaitEof, WOp::Yield(_), WOp::Drop])
             && matches!(sd.r.last(), Some(ROp::ReadEof { .. }))
@@ -749,7 +757,7 @@ fn gen_binds(r: &mut Prng, p: &mut Plan, max: usize) {
         p.eps[to].bind_buf = *r.pick(&[0usize, 1, 2, 4, 16]);
         let n = 1 + r.below(max);
         for _ in 0..n {
-            p.binds.push(BindReq { from, port: r.next() as u16, ty: if r.chance(1, 2) { 1 } else { 3 }, hlen: if r.chance(1, 6) { r.below(200) } else { r.below(12) }, delay: r.below(8) });
+            p.binds.push(BindReq { from, port: r.next() as u16, ty: if r.chance(1, 2) { 1 } else { 3 }, hlen: if r.chance(1, 6) { r.below(200) } else { r.below(12) }, delay: r.below(8), after_abort: false });
         }
         if p.eps[to].bind_buf > 0 && !r.chance(1, 10) {
             let answers = (0..(n + 2)).map(|_| match r.below(6) { 0 => Answer::Accept, 1 => Answer::Reject, 2 => Answer::Drop, 3 => Answer::Hold, 4 => Answer::AcceptLater(r.below(3)), _ => Answer::Accept }).collect();
@@ -821,6 +829,47 @@ fn gen_c15_reuse(r: &mut Prng, _i: u64, _t: Tier) -> Plan {
     }
     p
 }
+/// a bind request takes the flow id of a stream the peer has aborted, while this endpoint's
+/// application still holds the object of that stream and drops it only after the request is out;
+/// the peer application answers late. The late drop must not resolve (or disturb) the request.
+fn gen_c15_bind_after_abort(r: &mut Prng, _i: u64, _t: Tier) -> Plan {
+    let mut p = base_plan(r);
+    p.eps[0].ids = vec![CYCLE_ID; 12];
+    p.eps[0].retries = 12;
+    p.eps[1].bind_buf = 4;
+    let linger = 5 + r.below(80);
+    // stream 0: opened by endpoint 0, aborted at once by endpoint 1's application; endpoint 0 lets go later
+    let first = SidePlan { w: vec![WOp::Drop], r: vec![], hold: false };
+    let last = SidePlan { w: vec![WOp::AwaitEof, WOp::Yield(linger), WOp::Drop], r: vec![ROp::ReadEof { buf: 8 }], hold: false };
+    p.streams.push(StreamPlan { opener: 0, port: 1, pad: 0, delay: 0, after: None, after_abort: None, raw_host: None, sides: [last, first] });
+    p.binds.push(BindReq { from: 0, port: r.next() as u16, ty: if r.chance(1, 2) { 1 } else { 3 }, hlen: r.below(12), delay: r.below(6), after_abort: true });
+    // the peer application answers after the old object is gone (it takes its time)
+    let answer = match r.below(3) {
+        0 => Answer::Accept,
+        1 => Answer::Reject,
+        _ => Answer::Accept,
+    };
+    p.responders.push(Responder { ep: 1, answers: vec![answer], yields: 60 + r.below(200), forget_after_reply: r.chance(1, 4) });
+    if r.chance(1, 2) {
+        let mut b = gen_stream(r, &CLEAN);
+        b.opener = 1;
+        p.streams.push(b);
+    }
+    p
+}
+fn x_c15_bind_after_abort(r: &DuoRun, _wm: &WireModel, _ei: &EndInfo, o: &mut Outcome) {
+    let led = r.led.borrow();
+    let l = r.link.lock().unwrap();
+    // did the bind really go out under the id of the aborted stream while the old object lived?
+    let bind_sent = l.evs.iter().find(|e| e.stage == Stage::Sent && e.from == 0 && matches!(&*e.w, Wire::Frame(RFrame::Bind { id, .. }) if *id == CYCLE_ID)).map(|e| e.seq);
+    let old_dropped = led.streams.first().and_then(|s| s.sides[0].dropped);
+    let answered = led.bind.seen[1].first().and_then(|s| s.replied_at);
+    if let (Some(b), Some(d)) = (bind_sent, old_dropped) {
+        if b < d && answered.is_none_or(|a| a > d) {
+            o.probe("bind-pending-under-reused-id-when-old-stream-object-dropped", 1);
+        }
+    }
+}
 fn x_c15_reuse(_r: &DuoRun, _wm: &WireModel, _ei: &EndInfo, o: &mut Outcome) {
     // a finished bind must leave its flow id free: nothing it sends later may hit a stream
     // that legitimately re-used the id
@@ -846,9 +895,10 @@ pub fn c15() -> Check {
         "exploration",
         vec![
             fam("binds", 200000, 2_000_000, gen_c15, OracleCfg::default(), Some(x_c15), nt_c15, "1-6 concurrent request_bind calls from either side (types 1/3, hosts 0..200 bytes, all ports) against a peer with binds disabled or a buffer of 1..16; responder applications answer in a seeded order with accept / reject / drop / hold forever / accept later (out of order), with or without dropping the request object after the reply; stream and datagram traffic alongside. Each call's result is matched to what the responder was shown through a unique host string; flow ids are read off the wire. Non-trivial: a request was shown to the peer application and a call resolved."),
+            fam("bind-after-abort", 40000, 400_000, gen_c15_bind_after_abort, OracleCfg::default(), Some(x_c15_bind_after_abort), nt_c15, "the peer aborts a stream; the requester's application still holds its object of that stream when it issues a bind request that draws the same flow id (scripted ids), and drops the old object while the request is pending; the peer application answers (accept / reject) 60-260 scheduling rounds later. The request must resolve with exactly that answer."),
             fam("id-reuse", 200000, 2_000_000, gen_c15_reuse, OracleCfg { accountant: false, ..OracleCfg::default() }, Some(x_c15_reuse), nt_c15, "both endpoints draw flow ids for binds and streams from a scripted space of 2-6 values, so that ids of answered binds are re-used at once by streams of either side; all streams are kept open. Any disturbance of such a stream (ghost accept, unjustified EOF, spurious write failure, stall) is a violation."),
         ],
-        vec!["bind-accepted", "bind-refused", "bind-answered-out-of-order", "bind-disabled-peer", "late-call-after-end"],
+        vec!["bind-accepted", "bind-refused", "bind-answered-out-of-order", "bind-disabled-peer", "late-call-after-end", "bind-pending-under-reused-id-when-old-stream-object-dropped"],
     )
 }
 
@@ -1487,7 +1537,7 @@ impl Family for C16Family {
             }
         }
         let stuck_sink = r.chance(1, 3);
-        let plan = C16Plan { interval_ms: i_ms, timeout_ms: t_req, delays, tail, link: LinkCfg { window: if stuck_sink { 1 + r.below(2) } else { 1 << 20 }, latency_ms: 0, drop_after_close: r.chance(1, 2), ws_client: r.below(2) as u8, bp_flush: r.chance(1, 2) }, weights: gen_weights(r), stuck_sink, start_delay_ms: if r.chance(1, 4) { *r.pick(&[1u64, i_ms / 2 + 1, 2 * t_req.max(i_ms) + 1]) } else { 0 }, timeout_first: r.chance(1, 4), flood_connects: if r.chance(1, 5) { *r.pick(&[1usize, 5, 6, 9]) } else { 0 } };
+        let plan = C16Plan { interval_ms: i_ms, timeout_ms: t_req, delays, tail, link: LinkCfg { window: if stuck_sink { 1 + r.below(2) } else { 1 << 20 }, latency_ms: 0, drop_after_close: r.chance(1, 2), ws_client: r.below(2) as u8, bp_flush: r.chance(1, 2) }, weights: gen_weights(r), stuck_sink, start_delay_ms: if r.chance(1, 4) { *r.pick(&[1u64, i_ms / 2 + 1, 2 * t_req.max(i_ms) + 1]) } else { 0 }, timeout_first: r.chance(1, 4), flood_connects: if r.chance(1, 5) { *r.pick(&[1usize, 5, 6, 9]) } else { 0 }, zero_via_from_secs: r.chance(1, 3), peer_pings_ms: if r.chance(1, 4) { (i_ms / *r.pick(&[1u64, 2, 3])).max(1) } else { 0 } };
         (serde_json::to_value(plan).expect("plan"), seed)
     }
     fn exec(&self, plan: &Value, sched: &Sched, record: bool) -> Outcome {
